@@ -58,6 +58,11 @@ func cacRules(r *core.Run, pfx string) {
 		if b, isC := core.ConstBool(v); isC {
 			r.Check(pfx+"I1", core.Key(pfx+"I1", fn, "constant return"), ret.Pos(), !b,
 				"a constant verdict is false", "Valid returns the constant true")
+			// "valid exactly when": the only outright refusals are the two length bounds —
+			// at a constant-false return the payload length lies outside the window
+			lf := ia.LenAt(data, ret)
+			r.Check(pfx+"I3", lsKey(pfx+"I3", fn, "outright refusal only outside the length window"), ret.Pos(), !b && (lf.Hi < span || lf.Lo > chunk+span),
+				"a payload is refused without hashing only when its length is outside [SpanSize, ChunkSize+SpanSize]", fmt.Sprintf("Valid returns false for a payload whose length may lie inside the window (at this return len(payload) ranges over [%d,%s]): a correctly addressed chunk (e.g. one whose span is smaller than its data length) is declared invalid", lf.Lo, fmtBound(lf.Hi)))
 			return
 		}
 		nNonConst++
